@@ -35,6 +35,16 @@ using T1 = cnl::static_number<12, -6, RT, OT>;
 using T2 = cnl::static_number<30, -30, RT, OT>;
 using T3 = cnl::static_number<20, 0, RT, OT>;
 using T4 = cnl::static_number<100, -50, RT, OT>;
+#elif MENU == 4
+// digit counts whose sums and products are exact multiples of the 32-bit limb width (64, 96, 128, 192): results live
+// in multi-limb wide_integer storage that needs one more bit than its digits
+using RT = cnl::nearest_rounding_tag;
+using OT = cnl::saturated_overflow_tag;
+#define MENU_NAME "nearest_saturated_limb_aligned"
+using T1 = cnl::static_integer<64, RT, OT>;
+using T2 = cnl::static_integer<32, RT, OT>;
+using T3 = cnl::static_integer<127, RT, OT>;
+using T4 = cnl::static_integer<96, RT, OT>;
 #else
 using RT = cnl::tie_to_pos_inf_rounding_tag;
 using OT = cnl::saturated_overflow_tag;
